@@ -2,6 +2,7 @@
   SparseV.Lemmas.Npz — helper lemmas for property C14 (core Lean only).
 -/
 import SparseV.Model.Npz
+import SparseV.Lemmas.Gen.Ctor
 namespace SparseV.Npz
 variable {α : Type}
 
@@ -45,65 +46,9 @@ theorem fixCoords_preserves_wf (s : List Int) (c : Mat) (hc : c.WF) : (fixCoords
   · exact mat_empty_wf _
   · exact hc
 
-/-! ### the generated constructor checks (tools/targets.d/C14.py), characterised
-
-Each lemma unfolds the definition translated from the current source: a change of a check in
-`COO.__init__`, `SparseArray.__init__` or `GCXS.__init__` makes it (and every theorem below) fail to check. -/
-
-theorem all_shapeEltOk_iff (s : List Int) : s.all Gen.shapeEltOk = true ↔ ∀ e ∈ s, 0 ≤ e := by
-  simp [List.all_eq_true, Gen.shapeEltOk]
-
-theorem all_gcxsShapeEltOk_iff (s : List Int) : s.all Gen.gcxsShapeEltOk = true ↔ ∀ e ∈ s, 0 ≤ e := by
-  simp [List.all_eq_true, Gen.gcxsShapeEltOk]
-
-/-- `COO.__init__`: the checks pass iff there is one value per coordinate column and one coordinate row per
-dimension; every failure is a ValueError -/
-theorem cooCtorChecks_ok_iff (nd nc dim nr : Int) : Gen.cooCtorChecks 2 nd nc dim nr = .ok () ↔ nd = nc ∧ dim = nr := by
-  unfold Gen.cooCtorChecks
-  by_cases h1 : nd = nc <;> by_cases h2 : dim = nr <;> simp [h1, h2]
-
-theorem cooCtorChecks_cases (a nd nc dim nr : Int) :
-    Gen.cooCtorChecks a nd nc dim nr = .ok () ∨ Gen.cooCtorChecks a nd nc dim nr = .error .value := by
-  unfold Gen.cooCtorChecks
-  repeat' split
-  all_goals simp
-
-/-- `GCXS.__init__`: the checks pass iff every extent is a non-negative integer, there is one value per index
-(one dimension and up), — two dimensions and up — `indptr` has `rows + 1` entries, the first 0 and the last
-`len(indices)`, it does not decrease, and — when there are indices — the least and greatest index lie in
-`[0, cols)` (two dimensions and up) resp. `[0, shape[0])` (one dimension) -/
-theorem gcxsCtorChecks_ok_iff (shapeOk dec : Bool) (ndim sh0 nd ni np rows cols p0 pl imin imax : Int) :
-    Gen.gcxsCtorChecks 1 shapeOk ndim sh0 nd ni np rows cols p0 pl dec 1 imin imax = .ok () ↔
-      shapeOk = true ∧ (1 ≤ ndim → nd = ni)
-      ∧ (2 ≤ ndim → np = rows + 1 ∧ p0 = 0 ∧ pl = ni ∧ dec = false ∧ (ni ≠ 0 → 0 ≤ imin ∧ imax < cols))
-      ∧ (ndim = 1 → ni ≠ 0 → 0 ≤ imin ∧ imax < sh0) := by
-  unfold Gen.gcxsCtorChecks
-  dsimp only
-  repeat' split
-  all_goals simp_all
-  all_goals omega
-
-/-- every failure of these checks is a ValueError -/
-theorem gcxsCtorChecks_cases (a b : Int) (shapeOk dec : Bool) (ndim sh0 nd ni np rows cols p0 pl imin imax : Int) :
-    Gen.gcxsCtorChecks a shapeOk ndim sh0 nd ni np rows cols p0 pl dec b imin imax = .ok ()
-      ∨ Gen.gcxsCtorChecks a shapeOk ndim sh0 nd ni np rows cols p0 pl dec b imin imax = .error .value := by
-  unfold Gen.gcxsCtorChecks
-  dsimp only
-  repeat' split
-  all_goals simp
-
-theorem gcxsCtorChecksHead_ok_iff (shapeOk : Bool) (ndim nd ni : Int) :
-    Gen.gcxsCtorChecksHead 1 shapeOk ndim nd ni = .ok () ↔ shapeOk = true ∧ (1 ≤ ndim → nd = ni) := by
-  unfold Gen.gcxsCtorChecksHead
-  repeat' split
-  all_goals simp_all
-  all_goals omega
-
-theorem gcxsCtorChecksHead_cases (a : Int) (shapeOk : Bool) (ndim nd ni : Int) :
-    Gen.gcxsCtorChecksHead a shapeOk ndim nd ni = .ok () ∨ Gen.gcxsCtorChecksHead a shapeOk ndim nd ni = .error .value := by
-  unfold Gen.gcxsCtorChecksHead
-  repeat' split
-  all_goals simp
+/-! ### the generated constructor checks (tools/targets.d/C14.py), characterised: `SparseV/Lemmas/Gen/Ctor.lean`
+(`all_shapeEltOk_iff`, `all_gcxsShapeEltOk_iff`, `cooCtorChecks_ok_iff`, `cooCtorChecks_cases`, `gcxsCtorChecks_ok_iff`,
+`gcxsCtorChecks_cases`, `gcxsCtorChecksHead_ok_iff`, `gcxsCtorChecksHead_cases`) — the only place where they are unfolded. -/
 
 /-! ### the list primitives the generated checks are fed with -/
 
